@@ -435,6 +435,15 @@ func main() {
 		"service faults: rewind to an earlier file boundary, replacement by a foreign contiguous chain, wipe",
 	}
 	defer core.Cleanup()
+	if os.Getenv("C14_DIRECTED") == "lostanswer" { // development aid (never commit its evidence)
+		for _, be := range []string{"file", "lfsc"} {
+			v := cfgSpec{Layout: "L0", PageSize: 512, Compress: false}
+			v.Backend = be
+			out := runContinuousLostAnswer(v)
+			report(rep, "continuous-lost-answer", nil, v, out, "continuous-lost-answer")
+		}
+		rep.Finish()
+	}
 	core.Watchdog(180*time.Second, func(label string, since time.Duration) {
 		if strings.HasPrefix(label, "real:") {
 			rep.Violate("C14.no-hang", "hang/"+label, map[string]any{"no_progress_for": since.String()}, nil)
@@ -571,6 +580,8 @@ func main() {
 		rep.Extra["lead_stale_hwm_"+be] = facts
 		out = runContinuousMonitor(v)
 		report(rep, "continuous-monitor", nil, v, out, "continuous-monitor")
+		out = runContinuousLostAnswer(v)
+		report(rep, "continuous-lost-answer", nil, v, out, "continuous-lost-answer")
 		out = runRestoreWithOpenTx(v, donors[v.donorKey()])
 		report(rep, "restore-open-tx", nil, v, out, "restore-with-open-transaction")
 		out, facts = runLeadPosZero(v, donors[v.donorKey()])
